@@ -231,6 +231,16 @@ func (c *FnCtx) doCall(res *ssa.Call, cc *ssa.CallCommon, site ssa.Instruction) 
 		setRes(freshResults("pure"))
 		return
 	}
+	// a call of a context.CancelFunc value (defer cancel()): cancels a context and writes no program-visible memory.
+	// Assumed, and listed in the evidence.
+	if fn == nil && !cc.IsInvoke() {
+		if nt, ok := cc.Value.Type().(*types.Named); ok && nt.Obj() != nil && nt.Obj().Pkg() != nil &&
+			nt.Obj().Pkg().Path() == "context" && nt.Obj().Name() == "CancelFunc" {
+			c.used["a call of a context.CancelFunc value writes no program-visible memory"] = true
+			setRes(nil)
+			return
+		}
+	}
 	// unknown call: havoc everything
 	if name == "" {
 		name = "dynamic call"
